@@ -94,7 +94,21 @@ def sites(F):
 
 
 def visited_guard(F, f, call):
-    """Is the recursive call dominated by a visited/history test whose container is passed on?  Returns a description or None."""
+    """Is the recursive call dominated by a visited/history test whose container is passed on, and is the current item entered into
+    that container before the call (mark before descend)?  Returns a description or None."""
+    how = _visited_test(F, f, call)
+    if how is None:
+        return None
+    conts = [p for p in f.params if ('std::vector<' in p['t'] or 'History' in p['t']) and p['t'].rstrip().endswith('&')]
+    passed = {x.get('d') for a in call.get('c', []) for x in walk(a) if x.get('k') == 'Ref' and x.get('dk') == 'parm' and any(x.get('d') == p['d'] for p in conts)}
+    cfg = f.cfg_for(call)
+    marks = [c for c in f.walk() if c.get('k') == 'Call' and c.get('mc') and c.get('fn') in ('push_back', 'emplace_back', 'insert', 'emplace') and c['c'][0].get('k') == 'Ref' and c['c'][0].get('d') in passed]
+    if cfg is not None and marks and not any(cfg.node_dominates(m, call) for m in marks):
+        return None     # the item is entered only after the descent: two items that refer to each other recurse for ever
+    return how + ('' if not marks else '; marked before the call')
+
+
+def _visited_test(F, f, call):
     conts = [p for p in f.params if ('std::vector<' in p['t'] or 'History' in p['t']) and p['t'].rstrip().endswith('&')]
     passed = []
     for a in call.get('c', []):
